@@ -507,10 +507,10 @@ func (a *Authenticator) ClientHandshake(ctx context.Context) (*SecurityNegotiati
 		// session stands in for a handshake only if it has a key (the server
 		// refuses to resume one without) and, with authentication REQUIRED, was
 		// authenticated when it was established.
-		if entry.KeyInfo() == nil || len(entry.KeyInfo().Data) == 0 {
+		if !sessionKeyUsable(entry) {
 			return nil, &SessionResumptionError{
 				SessionID: a.config.SessionID,
-				Reason:    "pre-registered session has no key",
+				Reason:    "pre-registered session has no usable key",
 			}
 		}
 		if a.config.Authentication == SecurityRequired && !sessionWasAuthenticated(entry) {
@@ -539,7 +539,7 @@ func (a *Authenticator) ClientHandshake(ctx context.Context) (*SecurityNegotiati
 		// Nor does an unauthenticated session stand in for a handshake when this
 		// endpoint's policy marks authentication REQUIRED (it may have been created
 		// under a more permissive configuration sharing the cache).
-		if entry, ok := cache.LookupByCommand(a.config.SecurityTag, serverAddr, cmdStr); ok && entry.KeyInfo() != nil && len(entry.KeyInfo().Data) > 0 &&
+		if entry, ok := cache.LookupByCommand(a.config.SecurityTag, serverAddr, cmdStr); ok && sessionKeyUsable(entry) &&
 			(a.config.Authentication != SecurityRequired || sessionWasAuthenticated(entry)) {
 			slog.Info(fmt.Sprintf("🔐 CLIENT: Found cached session %s for %s, attempting to resume...",
 				redactSessionID(entry.ID()), serverAddr), "destination", "cedar")
@@ -714,8 +714,11 @@ func (a *Authenticator) handleSessionResumption(ctx context.Context, sessionID s
 	// carries no key (negotiated without a cipher) offers no such proof -- anyone
 	// who learns or guesses the id could ride it, identity included -- so it is
 	// never resumed; the requester is told to start a fresh handshake.
-	if ok && (entry.KeyInfo() == nil || len(entry.KeyInfo().Data) == 0) {
-		slog.Info(fmt.Sprintf("🔐 SERVER: Session %s has no key; refusing to resume it", redactSessionID(sessionID)), "destination", "cedar")
+	// The same holds for key material this implementation cannot put on the stream
+	// (a cipher other than AES-GCM, e.g. inherited from an older pool): the session
+	// would come back as plaintext, with its identity, for anyone naming the id.
+	if ok && !sessionKeyUsable(entry) {
+		slog.Info(fmt.Sprintf("🔐 SERVER: Session %s has no usable key; refusing to resume it", redactSessionID(sessionID)), "destination", "cedar")
 		ok = false
 	}
 	// A cached session stands in for a handshake only if it provides what this
@@ -859,6 +862,13 @@ func (a *Authenticator) resumptionPolicy(clientAd *classad.ClassAd, command int)
 		}
 	}
 	return cfg
+}
+
+// sessionKeyUsable reports whether a cached session carries key material that can
+// actually protect the stream (non-empty, AES-GCM).
+func sessionKeyUsable(entry *SessionEntry) bool {
+	ki := entry.KeyInfo()
+	return ki != nil && len(ki.Data) > 0 && isAESGCM(CryptoMethod(ki.Protocol))
 }
 
 // sessionWasAuthenticated reports whether a cached session records that
